@@ -104,7 +104,7 @@ class World:
     inserted at offset 0 of a block is exactly the interval contents minus the
     original instruction)."""
 
-    def __init__(self, abi_key, n_each=1, with_arg_symbols=False):
+    def __init__(self, abi_key, n_each=1, with_arg_symbols=False, order=None):
         A = ABIS[abi_key]
         self.abi_key = abi_key
         self.A = A
@@ -118,7 +118,7 @@ class World:
         add_function(m, self.callee_local, callee_block)
         self.blocks = {w: [] for w in WHERES}
         addr = 0x10000
-        for w in WHERES:
+        for w in (order or WHERES):  # address order of the three kinds of target blocks
             for _ in range(n_each):
                 bi = gtirb.ByteInterval(contents=b"", address=addr)
                 bi.section = self.text
